@@ -204,13 +204,40 @@ func runVdrProperty(c *Ctx, prop string) {
 		}
 		if c.Rng.Intn(6) == 0 { // a chunk fails, mrp is restarted, the chunk is retried
 			sp.FailChunk = true
+		} else if c.Rng.Intn(5) == 0 { // a consumer of files fails (each manifestation), mrp is restarted, it is retried
+			sp.FailConsumer = []string{"errors", "assert", "exit"}[c.Rng.Intn(3)]
+			sp.FailAt = c.Rng.Intn(4)
+			sp.LateConsumers = false
 		} else if c.Rng.Intn(4) == 0 { // interruption and restart
 			sp.CrashAt = []int{4 + c.Rng.Intn(25)}
 			if c.Rng.Intn(2) == 0 {
 				sp.CrashAt = append(sp.CrashAt, 30+c.Rng.Intn(40))
 			}
 			sp.CrashSurvive = 0.3
+			if c.Rng.Intn(2) == 0 && strings.Contains(src, "pipeline SUB") {
+				sp.RelocateSub = true
+			}
 		}
+		specs = append(specs, sp)
+	}
+	// a sub-pipeline directory is relocated to another volume while mrp is down
+	nReloc := 10
+	if c.Thorough {
+		nReloc = 120
+	}
+	for i := 0; i < nReloc; i++ {
+		mode := []string{"post", "rolling", "strict", "post"}[c.Rng.Intn(4)]
+		var src string
+		for k := 0; k < 40; k++ {
+			src, _ = GenVdrProgram(c.Rng, mode)
+			if strings.Contains(src, "pipeline SUB") {
+				break
+			}
+		}
+		sp := mk(fmt.Sprint("reloc", i), src, mode, c.Seed*104729+int64(i))
+		sp.RelocateSub = true
+		sp.CrashAt = []int{6 + c.Rng.Intn(20)}
+		sp.CrashSurvive = 0.3
 		specs = append(specs, sp)
 	}
 	for i := 0; i < nOrch; i++ {
